@@ -13,7 +13,9 @@
  *   daily = what DTSTART + FREQ=DAILY;COUNT=365 delivers (the local time on every day of 2015)
  *   exdate: delivered == base minus the instants whose day is listed
  *   rdate : delivered == base united with daily[day] for each listed day
- * The zones are chosen so that the local day equals the UTC day of the occurrence.
+ * The configurations are chosen so that DTSTART's local day equals its UTC day (what a date entry means when
+ * they differ - Europe/Berlin 01:30 in summer is 23:30Z of the day before - is not settled by the property: the
+ * code pastes DTSTART's UTC time of day onto the date).
  */
 #include "vdrv.h"
 #include "ref/icalio.h"
@@ -25,13 +27,45 @@ struct zone_s {
 	int std_offs, dst_offs;	/* seconds east */
 	int dst_from, dst_till;	/* months (5th of) in DST: from <= m <= till */
 	int south;
+	/* near-switch configurations: DTSTART on SM-SD of 2015, FREQ=DAILY;COUNT=12, the first occurrence within
+	 * hours of a DST switch (its wall clock read as UTC lies on the other side of the switch than its true
+	 * UTC instant); no absolute expectation, the event's own instants are the reference */
+	int sm, sd;
 };
 static const struct zone_s zones[] = {
-	{"Europe/Berlin", "170000", 3600, 7200, 4, 10, 0},
-	{"America/New_York", "093000", -18000, -14400, 4, 10, 0},
-	{"America/Sao_Paulo", "120000", -10800, -7200, 3, 10, 1},	/* DST Oct 18 .. Feb 22: 5 Mar..5 Oct standard */
+	{"Europe/Berlin", "170000", 3600, 7200, 4, 10, 0, 0, 0},
+	{"America/New_York", "093000", -18000, -14400, 4, 10, 0, 0, 0},
+	{"America/Sao_Paulo", "120000", -10800, -7200, 3, 10, 1, 0, 0},	/* DST Oct 18 .. Feb 22: 5 Mar..5 Oct standard */
+	{"Europe/Berlin", "013000", 3600, 7200, 4, 10, 0, 3, 29},	/* 00:30Z, the switch is at 01:00Z */
+	{"America/New_York", "030000", -18000, -14400, 4, 10, 0, 11, 1},	/* 08:00Z, the switch was at 06:00Z */
 };
 #define NZONES ((int)(sizeof(zones) / sizeof(*zones)))
+
+/* days from civil and back (proleptic Gregorian), for the day universe */
+static long
+cvl2_days(int y, int m, int d)
+{
+	y -= m <= 2;
+	const long era = (y >= 0 ? y : y - 399) / 400;
+	const unsigned yoe = (unsigned)(y - era * 400);
+	const unsigned doy = (153U * (unsigned)(m + (m > 2 ? -3 : 9)) + 2U) / 5U + (unsigned)d - 1U;
+	const unsigned doe = yoe * 365U + yoe / 4U - yoe / 100U + doy;
+	return era * 146097L + (long)doe - 719468L;
+}
+
+static void
+cvl2_civil(long z, int *y, int *m, int *d)
+{
+	z += 719468;
+	const long era = (z >= 0 ? z : z - 146096) / 146097;
+	const unsigned doe = (unsigned)(z - era * 146097);
+	const unsigned yoe = (doe - doe / 1460U + doe / 36524U - doe / 146096U) / 365U;
+	const unsigned doy = doe - (365U * yoe + yoe / 4U - yoe / 100U);
+	const unsigned mp = (5U * doy + 2U) / 153U;
+	*d = (int)(doy - (153U * mp + 2U) / 5U + 1U);
+	*m = (int)(mp < 10U ? mp + 3U : mp - 9U);
+	*y = (int)((long)yoe + era * 400 + (*m <= 2));
+}
 
 static int64_t
 inst_secs(echs_instant_t i)
@@ -76,18 +110,30 @@ enumerate(void)
 	const int nz = (int)vd_opt_l("zones", NZONES);
 	static const int mdays[] = {31, 28, 31, 30, 31, 30, 31, 31, 30, 31, 30, 31};
 
-	for (int i = 0; i < 12; i++) uni_m[i] = i + 1, uni_d[i] = 5;
-	uni_m[12] = 4, uni_d[12] = 6;	/* no occurrence, DST side */
-	uni_m[13] = 12, uni_d[13] = 24;	/* no occurrence, standard side */
 	vd_count_cases = 0;
 
 	for (int z = 0; z < nz && z < NZONES; z++) {
 		const struct zone_s *Z = &zones[z];
-		char body[2048], text[2560];
+		char body[2048], text[2560], head[160];
 		int64_t base[16], daily[400];
 		int nb, nd;
 
-		snprintf(body, sizeof(body), "DTSTART;TZID=%s:20150105T%s\nRRULE:FREQ=MONTHLY;COUNT=12\n", Z->tzid, Z->hms);
+		if (Z->sm == 0) {
+			for (int i = 0; i < 12; i++) uni_m[i] = i + 1, uni_d[i] = 5;
+			uni_m[12] = 4, uni_d[12] = 6;	/* no occurrence, DST side */
+			uni_m[13] = 12, uni_d[13] = 24;	/* no occurrence, standard side */
+			snprintf(head, sizeof(head), "DTSTART;TZID=%s:20150105T%s\nRRULE:FREQ=MONTHLY;COUNT=12\n", Z->tzid, Z->hms);
+		} else {
+			/* 12 consecutive days from the start, and two days behind them */
+			const long z0 = cvl2_days(2015, Z->sm, Z->sd);
+			for (int i = 0; i < 14; i++) {
+				int y, m, d;
+				cvl2_civil(z0 + (i < 12 ? i : i == 12 ? 15 : 40), &y, &m, &d);
+				uni_m[i] = m, uni_d[i] = d;
+			}
+			snprintf(head, sizeof(head), "DTSTART;TZID=%s:2015%02d%02dT%s\nRRULE:FREQ=DAILY;COUNT=12\n", Z->tzid, Z->sm, Z->sd, Z->hms);
+		}
+		snprintf(body, sizeof(body), "%s", head);
 		ical_wrap(text, sizeof(text), "datelist@verif", body);
 		nb = pop_all(text, base, 16);
 		snprintf(body, sizeof(body), "DTSTART;TZID=%s:20150101T%s\nRRULE:FREQ=DAILY;COUNT=365\n", Z->tzid, Z->hms);
@@ -96,7 +142,8 @@ enumerate(void)
 		/* preconditions, from the zone's published offsets */
 		{
 			int ok = nb == 12 && nd == 365;
-			for (int i = 0; ok && i < 12; i++) {
+			for (int i = 1; ok && i < 12; i++) ok = base[i] > base[i - 1];
+			for (int i = 0; ok && i < 12 && Z->sm == 0; i++) {
 				rf_dt w = {2015, i + 1, 5, (Z->hms[0] - '0') * 10 + Z->hms[1] - '0', (Z->hms[2] - '0') * 10 + Z->hms[3] - '0', 0, 0};
 				int dst = (i + 1 >= Z->dst_from && i + 1 <= Z->dst_till) ^ Z->south;
 				int64_t want = rf_secs(w) - (dst ? Z->dst_offs : Z->std_offs);
@@ -132,7 +179,7 @@ enumerate(void)
 
 					if (!vd_next()) continue;
 					vd_sh->evals++;
-					o += (size_t)snprintf(body + o, sizeof(body) - o, "DTSTART;TZID=%s:20150105T%s\nRRULE:FREQ=MONTHLY;COUNT=12\n", Z->tzid, Z->hms);
+					o += (size_t)snprintf(body + o, sizeof(body) - o, "%s", head);
 					for (int i = 0; i < k; i++) {
 						if (layout == 0) {
 							o += (size_t)snprintf(body + o, sizeof(body) - o, "%s2015%02d%02d%s", i ? "," : (rdate ? "RDATE;VALUE=DATE:" : "EXDATE;VALUE=DATE:"), uni_m[idx[i]], uni_d[idx[i]], i + 1 == k ? "\n" : "");
@@ -149,7 +196,7 @@ enumerate(void)
 						int d1 = (1 >= Z->dst_from && 1 <= Z->dst_till) ^ Z->south;
 						crossing |= dm != d1;
 					}
-					vd_shape("datelist/%s/%s/n=%d/%s", rdate ? "rdate" : "exdate", layout ? "lines" : "list", k, crossing ? "after-switch" : "plain");
+					vd_shape("datelist/%s/%s/n=%d/%s%s", rdate ? "rdate" : "exdate", layout ? "lines" : "list", k, crossing ? "after-switch" : "plain", Z->sm ? "/start-near-switch" : "");
 					if (crossing) vd_nontrivial();
 
 					if (rdate) {
